@@ -377,6 +377,9 @@ protected:
     async<void> worker_coro(std::stop_token state) {
         std::stop_callback stop_notify(state, [&]{
             COCLS_VERIF_POINT(sch_stop_cb);
+            //the lock is required, otherwise the notification can be lost
+            //between worker's test of the stop state and its wait
+            std::lock_guard _(_mx);
             _cond.notify_all();
         });
         std::unique_lock lk(_mx);
